@@ -682,7 +682,9 @@ func c13PlantedMessage(class, msg string) bool {
 	case "runtime-bad-regexp":
 		return has("error parsing regexp")
 	case "runtime-non-bool-operand-of-connective", "runtime-non-bool-condition":
-		return has("interface conversion")
+		// ("interface conversion ... not int" is the untyped specialisation of
+		// another operation failing first)
+		return has("not bool")
 	}
 	return true
 }
